@@ -1,5 +1,4 @@
 // Copyright 2020-2024 the Deno authors. All rights reserved. MIT license.
-use super::program_ref;
 use super::Context;
 use super::LintRule;
 use crate::diagnostic::LintFix;
@@ -11,8 +10,10 @@ use crate::tags::Tags;
 use crate::Program;
 use std::borrow::Cow;
 
+use deno_ast::swc::parser::token::Token;
 use deno_ast::view as ast_view;
 use deno_ast::MediaType;
+use deno_ast::RootNode;
 use deno_ast::SourcePos;
 use deno_ast::SourceRange;
 use deno_ast::SourceRanged;
@@ -68,6 +69,7 @@ enum FixKind {
 #[derive(Default)]
 enum AddNewline {
   Leading,
+  LeadingSpace,
   Trailing,
   #[default]
   None,
@@ -108,6 +110,7 @@ impl FixKind {
       FixKind::Import { module, import } => {
         let (leading, trailing) = match newline {
           AddNewline::Leading => ("\n", ""),
+          AddNewline::LeadingSpace => (" ", ""),
           AddNewline::Trailing => ("", "\n"),
           AddNewline::None => ("", ""),
         };
@@ -124,24 +127,31 @@ impl FixKind {
 /// stay directly above the statement it is about.
 fn program_code_start(ctx: &Context) -> SourcePos {
   let program = ctx.program();
-  let code_start = match program_ref(program) {
-    ast_view::ProgramRef::Module(m) => m
-      .body
-      .first()
-      .map(|node| node.start())
-      .unwrap_or(program.start()),
-    ast_view::ProgramRef::Script(s) => s
-      .body
-      .first()
-      .map(|node| node.start())
-      .unwrap_or(program.start()),
-  };
+  // The first token, not the first statement: the range of
+  // `@dec export class A {}` starts at `export`, after its decorators.
+  let code_start = program
+    .token_container()
+    .tokens
+    .iter()
+    .find(|token| !matches!(token.token, Token::Shebang(_)))
+    .map(|token| token.start())
+    .unwrap_or(program.start());
   let line = ctx.text_info().line_index(code_start);
   line
     .checked_sub(1)
     .and_then(|above| ctx.line_ignore_directives().get(&above))
     .map(|directive| directive.range().start)
     .unwrap_or(code_start)
+}
+
+/// Whether only white space follows `pos` on its line.
+fn ends_line(ctx: &Context, pos: SourcePos) -> bool {
+  let text_info = ctx.text_info();
+  let index = pos.as_byte_index(text_info.range().start);
+  text_info.text_str()[index..]
+    .chars()
+    .take_while(|c| *c != '\n')
+    .all(char::is_whitespace)
 }
 
 fn is_common_js(ctx: &Context) -> bool {
@@ -161,10 +171,15 @@ impl NoNodeGlobalsHandler {
     let (fix_range, add_newline) = if matches!(fix_kind, FixKind::Import { .. })
     {
       if let Some(range) = self.most_recent_import_range {
-        (
-          SourceRange::new(range.end(), range.end()),
-          AddNewline::Leading,
-        )
+        // On a line of its own, unless something else follows the last import
+        // on its line: that stays where it is, so that no statement moves
+        // away from a `deno-lint-ignore` directive above it.
+        let separator = if ends_line(ctx, range.end()) {
+          AddNewline::Leading
+        } else {
+          AddNewline::LeadingSpace
+        };
+        (SourceRange::new(range.end(), range.end()), separator)
       } else {
         let code_start = program_code_start(ctx);
         (
